@@ -1114,6 +1114,21 @@ def wrappers_sweep(res, rng, reps_prim, reps_sub):
                 res.fail(f"sweep:qsub:wrap:{chain_name(chain)}:{e[0]}", f"dist {r[0]:.2e} leak {r[1]:.2e}",
                          {"op": wrap_expr(chain, e), "actual_qubits": perm})
 
+    # rotations at the angles where an operation may (or may not) be its own inverse - whole and half turns - under every
+    # two-deep combination of Inverse and Controlled (an inverse that is right only up to a phase shows under the control)
+    for k2 in range(-6, 9):
+        ang = k2 * math.pi / 2
+        ids = [rng.randint(1, 3) for _ in range(rng.randint(1, 2))]
+        e, U = ["PauliRot", ids, ang], O.local_matrix("PauliRotation", (ang,), tuple(ids))
+        for chain in (["Inv"], ["Inv", "Ctrl"], ["Ctrl", "Inv"], ["Inv", "Inv"], ["Ctrl", "Ctrl"]):
+            nq = len(ids) + n_controls(chain)
+            perm = rng.sample(range(nq), nq)
+            res.count((chain_name(chain), "PauliRot", tuple(ids), k2), bucket="wrap-PauliRot:special_angles")
+            r = one(e, U, chain, [], perm, None)
+            if r and not r[2] and not attributed(mk_op(wrap_expr(chain, e), []), bad):
+                res.fail(f"sweep:qsub:wrap:{chain_name(chain)}:PauliRot", f"angle {k2} pi/2: dist {r[0]:.2e} leak {r[1]:.2e}",
+                         {"op": wrap_expr(chain, e), "actual_qubits": perm})
+
     # composite (clean, hierarchical) targets
     for it in range(reps_sub):
         mode = it % 4  # 0,1: only primitives whose wrappers passed above, with phases ; 2: same, no phases ; 3: everything
